@@ -189,7 +189,10 @@ def run(ctx):
     for name, want in want_cols.items():
         if name not in got_cols:
             raise AnalysisError(f"get_cells_df: column '{name}' not found - re-bind the anchor")
-        rules.decide_equal(ctx, "FORM", f"{cd.qualname} / FORM / column '{name}'", ctx.where(cd), got_cols[name], want, f"column '{name}'")
+        got = got_cols[name]
+        if name == "ids" and got in (T.call("list", (T.call(("m", "keys"), (want,)),)), T.call("list", (want,)), T.call(("m", "keys"), (want,))):
+            got = want          # the keys of frame.cells in order, spelled list(cells.keys()) / list(cells) instead of an identity comprehension
+        rules.decide_equal(ctx, "FORM", f"{cd.qualname} / FORM / column '{name}'", ctx.where(cd), got, want, f"column '{name}'")
     bd = repo.func("forsys.stress_tensor.get_big_edges_df")
     ctx.touch(bd)
     sbd = sym.summarize(repo, bd.qualname)
